@@ -167,6 +167,8 @@ def main(rep, tier):
     rep.configs.append({"features": "async,http", "profile": "debug", "bodies": len(f.bodies)})
     check.guard(rep, "R13", run, f)
     check.guard(rep, "R13.3", selfcheck_fixture)
+    import check as _c
+    _c.witnesses(rep, "C13", f)
     return rep.finish(
         "Construction-site, provenance and who-may-call rules: every Token owns a permit of the single semaphore sized max_conns, "
         "shared by all clones of the runner; nothing can leak or duplicate a permit. Given a semaphore that never hands out more than "
